@@ -47,3 +47,70 @@ def c06(c):
         exhaustive_subspaces=["all source values of every ordered pair with a source type of <=16 bits (quick) / <=32 bits (thorough)"],
         assumptions=["two's-complement host; flag-mode abort capture continues after a failed dynamic_check (leaf computation has no side effects)",
                      "the model backend (harness/include/rlbox_vsbx_sandbox.hpp) is a faithful plug-in"]))
+
+
+# --------------------------------------------------------------------- C16
+C16_TYPES_Q = ["unsigned char", "signed char", "short", "int", "long", "unsigned long", "double"]
+C16_TYPES_T = ["bool", "char", "signed char", "unsigned char", "short", "unsigned short", "int", "unsigned int",
+               "long", "unsigned long", "long long", "unsigned long long", "float", "double"]
+C16_MIXED_Q = [("unsigned char", "signed char"), ("signed char", "unsigned char"), ("short", "long"), ("int", "unsigned long"),
+               ("long", "int"), ("unsigned char", "int"), ("int", "double"), ("double", "int"), ("long", "short"),
+               ("int", "unsigned char"), ("unsigned long", "signed char")]
+C16_BIN = ["op_add", "op_sub", "op_mul", "op_div", "op_mod", "op_xor", "op_and", "op_or", "op_shl", "op_shr"]
+C16_CMP = ["op_eq", "op_ne", "op_lt", "op_le", "op_gt", "op_ge", "op_land", "op_lor"]
+
+
+def c16_forms(c):
+    import random
+    if c.thorough:
+        types = C16_TYPES_T
+        pairs = [(a, b) for a in types for b in types]
+    else:
+        types = C16_TYPES_Q
+        pairs = [(t, t) for t in types] + C16_MIXED_Q
+    forms = []
+    wl = [("WT", "WP"), ("WT", "WT"), ("WT", "WV"), ("WV", "WP"), ("WV", "WT"), ("WV", "WV"), ("WP", "WT"), ("WP", "WV")]
+    for op in C16_BIN + C16_CMP:
+        for lw, rw in wl:
+            for a, b in pairs:
+                forms.append("binop, %s, %s, %s, %s, %s" % (op, lw, rw, a, b))
+    for op in C16_BIN:
+        for lw, rw in wl[:6]:
+            for a, b in pairs:
+                forms.append("compound, %s, %s, %s, %s, %s" % (op, lw, rw, a, b))
+    for op in ["u_preinc", "u_postinc", "u_predec", "u_postdec"]:
+        for lw in ["WT", "WV"]:
+            for t in types:
+                forms.append("incdec, %s, %s, %s" % (op, lw, t))
+    for op in ["u_neg", "u_not", "u_lnot"]:
+        for lw in ["WT", "WV"]:
+            for t in (types if "bool" in types else types + ["bool"]):
+                forms.append("unary, %s, %s, %s" % (op, lw, t))
+    rnd = random.Random(c.seed)
+    rnd.shuffle(forms)  # spread expensive forms evenly over the runner TUs
+    return [(i + 1, "FORM(%d, %s)" % (i + 1, f)) for i, f in enumerate(forms)]
+
+
+@plan("C16")
+def c16(c):
+    forms = c16_forms(c)
+    ntu = c.ncpu if not c.thorough else c.ncpu * 4
+    pre = '#include "c16_ops.hpp"\nusing namespace c16;\nint main(int c, char** v) { return c16::run_all(c, v); }\n'
+    units, runs = [], []
+    for i in range(ntu):
+        name = "c16_run%02d" % i
+        units.append(dict(name=name, kind="forms", build="asan", defs=EXC, preamble=pre, forms=forms[i::ntu]))
+        runs.append(dict(unit=name, label=name))
+    return dict(units=units, runs=runs, evidence=dict(
+        level="exploration",
+        rule="form = (operator, lhs wrapper, rhs wrapper, lhs type, rhs type) over {+ - * / % ^ & | << >>, six comparisons, && ||, "
+             "ten compound assignments, pre/post ++ --, unary - ~ !} x {plain, tainted, tainted_volatile (ILP32 model backend)}; "
+             "the compiler only filters which forms can be driven; each drivable form sweeps operand pairs (all 65536 pairs for "
+             "8-bit x 8-bit operand types, boundary+random value sets otherwise) and compares result type (as a run-time "
+             "boolean), result value and operand post-state with the plain expression, evaluated only where it has defined "
+             "behaviour (validity decided in 128-bit arithmetic; the UBSan build also proves the reference never evaluates UB). "
+             "distinct_nontrivial = number of driven forms that judged at least one operand pair.",
+        exhaustive=False,
+        exhaustive_subspaces=["all 65536 operand pairs of every drivable form whose operand types are both 8-bit"],
+        assumptions=["gcc's accept/reject decides only which forms exist as programs; it is never the oracle",
+                     "sandbox-resident operands are placed by raw guest-encoded writes, so values not representable in the guest type are skipped"]))
